@@ -338,14 +338,24 @@ func multiSplit(value string, seps ...string) []string {
 }
 
 func recursiveCheck(value []string, funcs []func(string) bool) bool {
+	// failed[n] records that the last n values cannot be matched, so that each
+	// suffix is examined once instead of once per way of reaching it
+	return recursiveCheckFrom(value, funcs, make([]bool, len(value)+1))
+}
+
+func recursiveCheckFrom(value []string, funcs []func(string) bool, failed []bool) bool {
+	if failed[len(value)] {
+		return false
+	}
 	for i := 0; i < len(value); i++ {
 		tempVal := strings.Join(value[:i+1], " ")
 		for _, j := range funcs {
-			if j(tempVal) && (len(value[i+1:]) == 0 || recursiveCheck(value[i+1:], funcs)) {
+			if j(tempVal) && (len(value[i+1:]) == 0 || recursiveCheckFrom(value[i+1:], funcs, failed)) {
 				return true
 			}
 		}
 	}
+	failed[len(value)] = true
 	return false
 }
 
